@@ -89,6 +89,30 @@ func ruleFsWho(p *Prog, r *RuleResult) {
 				r.exempt(k.key(fname, callee), p.IPos(i), reason)
 				return
 			}
+			// a file created only to be handed to the CPU profiler (wherever that code lives in the CLI)
+			if callee == "os.Create" && p.Rel(f) == "app" {
+				if cv, ok := i.(ssa.Value); ok {
+					toProf := false
+					fl := NewFlow(p, false)
+					for _, ref := range *cv.Referrers() {
+						if ex, ok := ref.(*ssa.Extract); ok && ex.Index == 0 {
+							fl.Add(ex)
+						}
+					}
+					fl.Run()
+					for _, g := range p.ModFns {
+						eachInstr(g, func(j ssa.Instruction) {
+							if c2 := callOf(j); c2 != nil && isPkgFunc(c2, "runtime/pprof", "StartCPUProfile") && len(c2.Args) == 1 && fl.Tainted(c2.Args[0]) {
+								toProf = true
+							}
+						})
+					}
+					if toProf {
+						r.exempt(k.key(fname, callee), p.IPos(i), "file created for runtime/pprof.StartCPUProfile (CPU profile requested on the command line)")
+						return
+					}
+				}
+			}
 			r.sink(k.key(fname, callee), p.IPos(i), fmt.Sprintf("%s is called outside the allow-listed functions: the tool (or library) modifies the file system in a place that none of the file-safety rules covers", callee))
 		})
 	}
